@@ -88,4 +88,41 @@ def transformKey (src dst : Arg) : Except String (String × String) := do
   let b ← frameOfArg dst
   pure (a, b)
 
+/-! ## parse sites that take several strings at once
+
+`set_task_lists`, `set_task_dict` (`common/evaluation_task.py`) and the `frame_id` argument of the
+evaluation configs (`config/_evaluation_config_base.py`). -/
+
+/-- the members a single string names: `for task in EvaluationTask: if s == task.value: append(task)`
+(no `break`: every member whose value equals the string, in definition order) -/
+def membersNamed (t : Table) (s : String) : List String :=
+  (t.filter (fun p => p.2 == s)).map (·.1)
+
+/-- `set_task_lists(evaluation_tasks_str)`: the outer loop runs over the given strings in order, the
+inner one over the members; a string that names no member adds nothing -/
+def setTaskLists (l : List String) : List String :=
+  l.flatMap (membersNamed Gen.evaluationTask)
+
+/-- `set_task_dict(evaluation_tasks_dict)` as a list of `(member, item)` in insertion order.  The keys of
+a Python dict are pairwise distinct, so together with distinct member values no member is assigned
+twice (`setTaskDict_keys_nodup`), i.e. the assignment `task_dict[task] = item` always appends. -/
+def setTaskDict {α : Type} (kv : List (String × α)) : List (String × α) :=
+  kv.flatMap fun e => (membersNamed Gen.evaluationTask e.1).map fun m => (m, e.2)
+
+/-- the `frame_id` argument of an evaluation config: one string or a sequence of strings -/
+inductive FrameIdArg where
+  | one (s : String)
+  | many (l : List String)
+deriving Repr, DecidableEq
+
+/-- `[FrameID.from_value(frame_id)] if isinstance(frame_id, str) else [FrameID.from_value(f) for f in frame_id]`:
+the first string that is no frame raises -/
+def frameIds : FrameIdArg → Except String (List String)
+  | .one s => (frameFromValue s).map fun m => [m]
+  | .many l => l.mapM frameFromValue
+
+/-- `_check_tasks`: `if task not in self.support_tasks: raise ValueError`, then `set_task(task)` -/
+def checkTask (support : List String) (s : String) : Except String (Option String) :=
+  if support.contains s then .ok (setTask s) else .error "ValueError"
+
 end PEval.Enums
